@@ -99,15 +99,25 @@ def not_in_tuple_literals(fn):
     return []
 
 
+def _const_in_self_attr(test):
+    """`<const> in self.<attr>` → "<const> in self.<attr>", else None."""
+    if isinstance(test, ast.Compare) and len(test.ops) == 1 and isinstance(test.ops[0], ast.In) \
+            and isinstance(test.left, ast.Constant):
+        comp = test.comparators[0]
+        if isinstance(comp, ast.Attribute) and isinstance(comp.value, ast.Name) and comp.value.id == "self":
+            return f"{test.left.value!r} in self.{comp.attr}"
+    return None
+
+
 def stmt_shape(st) -> str:
     """One top-level statement of a validate method, as a short descriptor:
-    `if <const> in self.<attr>: raise <Exc>`, `self.<method>()`, `for`, or the node type."""
-    if isinstance(st, ast.If) and isinstance(st.test, ast.Compare) and len(st.test.ops) == 1 \
-            and isinstance(st.test.ops[0], ast.In) and isinstance(st.test.left, ast.Constant):
-        comp = st.test.comparators[0]
-        if (isinstance(comp, ast.Attribute) and isinstance(comp.value, ast.Name) and comp.value.id == "self"
-                and len(st.body) == 1 and isinstance(st.body[0], ast.Raise) and not st.orelse):
-            return f"if {st.test.left.value!r} in self.{comp.attr}: raise {exc_name(st.body[0].exc)}"
+    `if <const> in self.<attr> [or <const> in self.<attr> …]: raise <Exc>`, `self.<method>()`,
+    `for`, or the node type."""
+    if isinstance(st, ast.If) and len(st.body) == 1 and isinstance(st.body[0], ast.Raise) and not st.orelse:
+        tests = st.test.values if isinstance(st.test, ast.BoolOp) and isinstance(st.test.op, ast.Or) else [st.test]
+        parts = [_const_in_self_attr(t) for t in tests]
+        if all(p is not None for p in parts):
+            return f"if {' or '.join(parts)}: raise {exc_name(st.body[0].exc)}"
     if isinstance(st, ast.Expr) and isinstance(st.value, ast.Call) and isinstance(st.value.func, ast.Attribute):
         v = st.value.func.value
         if isinstance(v, ast.Name) and v.id == "self":
